@@ -74,9 +74,9 @@ def _enumerate(tier):
 
 SUBS = [
     Sub("parity_random", check, strategy=_strategy, quick=2000, thorough=60000, shards=16,
-        floors={"nt": 0.3, "tie_pos_neg": 0.2, "interior_segment": 0.083, "grid_at_vertex": 0.2,
+        floors={"nt": 0.3, "tie_pos_neg": 0.2, "interior_segment": 0.079, "grid_at_vertex": 0.2,
                 "vertical_segment": 0.05, "p_ignore>0": 0.03, "flip_used": 0.03, "equalized_odds": 0.05,
                 "groups>=3": 0.2}),
     Sub("parity_exhaustive", check, enumerate=_enumerate, shards=16, exhaustive=True,
-        floors={"nt": 0.3, "p_ignore>0": 0.01, "flip_used": 0.01, "vertical_segment": 0.01}),
+        floors={"nt": 0.26, "p_ignore>0": 0.01, "flip_used": 0.01, "vertical_segment": 0.01}),
 ]
